@@ -3,11 +3,11 @@ import itertools
 
 from ..diff import Case, account
 from ..runner import Acc
-from ..terms import A, C, F, V, L, NIL, call, conj, TRUE, show_clause, show_term, Unprintable
+from ..terms import A, C, F, V, L, NIL, call, conj, TRUE, FAIL, show_clause, show_term, Unprintable
 
 ID = 'C09'
 LEVEL = 'model_checking'
-RULE = ('(thorough: also EVERY tower of 2 and of 3 wrappers out of call/1, once/1, call(once,.), call(call,.), findall(f(X,Y),.,Bag) around each goal) every program t(..) :- [Gv = Goal,] Builtin for Builtin in {call(G), call(G\',Extra..) for every split of '
+RULE = ('(each of call/1, once/1, findall/3 also as a direct operand of every control construct: left, right and middle of a disjunction, condition with and without else, then-branch, else-branch, under negation) (thorough: also EVERY tower of 2 and of 3 wrappers out of call/1, once/1, call(once,.), call(call,.), findall(f(X,Y),.,Bag) around each goal) every program t(..) :- [Gv = Goal,] Builtin for Builtin in {call(G), call(G\',Extra..) for every split of '
         'the goal\'s arguments into carried and extra arguments (<= 2 extra; for the 12- and 6-argument predicates every split, i.e. call/1 .. call/13; and call(call(G,A..),B..) with extra arguments at both levels for every split), once(G), \\+ call(G), findall(T,G,L) for 6 templates, '
         'each optionally followed by a continuation goal or used twice in a row on the same goal term} x goal in {atoms and compound goals with 0/1/2 solutions '
         'over compiled facts, a rule, dynamic facts, a predicate with both compiled clauses and a dynamic fact, an undefined predicate} x goal written inline, arriving in a '
@@ -83,6 +83,15 @@ def builtin_goals(goal, nesting):
                       lambda g: call(F('findall', F('p', X, V('L2')), F('findall', Y, g, V('L2')), Lv)), True))
         forms.append(('call(findall,..)', goal, lambda g: call(F('call', F('findall', X, g), Lv)), True))
         forms.append(('findall(call/2)', goal, lambda g: call(F('findall', X, F('call', g), Lv)), True))
+    # the builtin goal as a DIRECT operand of each control construct (a compiler that treats a builtin
+    # specially must still treat it as ONE goal there): left / right of ;, condition, then- and else-branch, \\+
+    for btag, bmk, uses in (('call', lambda g: call(F('call', g)), False), ('once', lambda g: call(F('once', g)), False),
+                            ('findall', lambda g: call(F('findall', X, g, Lv)), True)):
+        # next to findall the other goals bind W, not X: whether the instances in the bag share unbound
+        # variables with the caller is not fixed by the property (DESIGN C09)
+        mx = call(F('m', V('W'))) if uses else call(F('m', X))
+        for ctag, ctl in CONTROL_CONTEXTS:
+            forms.append(('%s-as-%s' % (btag, ctag), goal, (lambda g, bm=bmk, ct=ctl, m=mx: ct(bm(g), m)), uses))
     # towers: EVERY composition of 2 (nesting >= 1) and 3 (nesting >= 2) wrappers out of call/1, once/1,
     # call(once, .), call(call, .), findall(f(X,Y), ., Bag) around the goal; the bag of an inner findall is
     # a local variable, the bag of the outermost one is the head's L
@@ -93,6 +102,9 @@ def builtin_goals(goal, nesting):
     return forms
 
 
+CONTROL_CONTEXTS = [('disj-left', lambda b, m: (';', b, m)), ('disj-right', lambda b, m: (';', m, b)), ('disj3-middle', lambda b, m: (';', m, (';', b, m))),
+                    ('cond', lambda b, m: (';', ('->', b, TRUE), m)), ('cond-no-else', lambda b, m: ('->', b, m)), ('then', lambda b, m: (';', ('->', m, b), TRUE)),
+                    ('else', lambda b, m: (';', ('->', FAIL, TRUE), b)), ('negated', lambda b, m: ('\\+', b)), ('conj-in-disj-left', lambda b, m: (';', (',', b, m), m))]
 WRAPPERS = [('call', lambda g, lvl: F('call', g)), ('once', lambda g, lvl: F('once', g)), ('call(once)', lambda g, lvl: F('call', A('once'), g)),
             ('call(call)', lambda g, lvl: F('call', A('call'), g)),
             ('findall', lambda g, lvl: F('findall', F('f', X, Y), g, Lv if lvl == 0 else V('Bag%d' % lvl)))]
